@@ -467,10 +467,16 @@ func (db *BadgerDB) getKeyVersions(vctx storage.VersionedCtx, tk storage.TKey) (
 		opts.PrefetchValues = false // key only
 		it := txn.NewIterator(opts)
 		defer it.Close()
+		// A stored key of this TKey is exactly prefix + version + client + marker.  Longer keys
+		// sharing the prefix belong to other TKeys that extend this one and are not versions of it.
+		keyLen := len(dataKeyPrefix) + dvid.VersionIDSize + dvid.ClientIDSize + 1
 		for it.Seek(dataKeyPrefix); it.ValidForPrefix(dataKeyPrefix); it.Next() {
 			item := it.Item()
 			key := item.KeyCopy(nil)
 			storage.StoreKeyBytesRead <- len(key)
+			if len(key) != keyLen {
+				continue
+			}
 			keys = append(keys, key)
 		}
 		return nil
